@@ -364,6 +364,13 @@ def run(verbose=False):
     sites = translate_sites.run(GEN, write_if_changed)
     changed += sites.get("changed", [])
     extra["sites"] = sites
+    # C18's cfg inventory: its own failure must not take the other properties' checks down with it
+    try:
+        import translate_alloc
+        al = translate_alloc.run(GEN, write_if_changed)
+        extra["alloc"] = al
+    except Exception as e:  # noqa: BLE001 -- reported by the C18 check as a broken obligation
+        extra["alloc_error"] = "%s: %s" % (type(e).__name__, e)
     if verbose:
         print("translate: regenerated", changed if changed else "(nothing changed)")
     t["_changed"] = changed
